@@ -3,6 +3,7 @@ import io
 import sys
 
 from rich.console import Console
+from rich.console import RenderGroup
 from rich.live import Live
 from rich.progress import Progress
 from rich.status import Status
@@ -27,11 +28,16 @@ def frame(tag, h):
     return Text("\n".join("%s%d" % (tag, i) for i in range(h)))
 
 
+class _Nothing(RenderGroup):
+    """A renderable that produces no lines at all (unlike Text(''), which is one empty line)."""
+    plain = ""
+
+
 def _mk_live(nops, tiers, timeout):
     @symx("C10-live-history-%dops" % nops, tiers=tiers, timeout=timeout, kind="P", functions=F_L,
           bounds="Live on a terminal console (20x%d, no auto-refresh thread) x transient x vertical_overflow in {crop, ellipsis, "
                  "visible} x initial frame height 0..3 x every history of %d operations from {print, log-like second print, "
-                 "update(frame of height 0..4 or 8 > screen, refresh=True), update without refresh, refresh} then stop (once or twice) "
+                 "update(frame of height 0..4 or 8 > screen or a renderable producing no lines at all, refresh=True), update without refresh, refresh} then stop (once or twice) "
                  "(solver-enumerated, native, output replayed on a screen model): the screen shows exactly the printed lines in "
                  "order followed by the current frame (nothing if transient); no cursor-up ever leaves the visible screen; the "
                  "cursor is visible again; hooks and redirection restored" % (H, nops),
@@ -59,8 +65,8 @@ def _mk_live(nops, tiers, timeout):
                     c.print("q%d\nr%d" % (i, i))
                     printed += ["q%d" % i, "r%d" % i]
                 elif op in (2, 3):
-                    hh = [0, 1, 2, 4, 8][int(e.mk("h%d" % (i + 1), 0, 4))]
-                    cur = frame("f%d_" % i, hh)
+                    hh = [0, 1, 2, 4, 8, -1][int(e.mk("h%d" % (i + 1), 0, 5))]
+                    cur = frame("f%d_" % i, hh) if hh >= 0 else _Nothing()
                     tall = tall or hh > H - 1
                     live.update(cur, refresh=(op == 2))
                 else:
